@@ -241,6 +241,8 @@ func (w *world) snap() *snapshot {
 				s.feeinfo = append(s.feeinfo, fmt.Sprintf("%020d/%020d>%d:%s", le64(suf[:8]), le64(suf[8:]), fi.StartTime, strings.Join(es, ",")))
 				continue
 			}
+		} else if _, ok := match(k, side_chain_manager.ASSET_BIND, 8); ok {
+			continue // planted setup record of the ripple continuation, not part of the model state
 		} else if suf, ok := match(k, side_chain_manager.SIDE_CHAIN, 8); ok {
 			if sc, ok := dec(); ok {
 				s.sc[fmt.Sprintf("%020d", le64(suf))] = scRec(sc)
